@@ -82,8 +82,10 @@ def main():
     ap.add_argument("--corpus", default=os.path.join(HERE, "mutants", "corpus.json"))
     args = ap.parse_args()
     ALL = args.all
+    # make sure the binary reflects the current analyser sources (./run rebuilds when stale)
+    subprocess.run([os.path.join(HERE, "run"), "version"], capture_output=True)
     corpus = json.load(open(args.corpus))
-    sel = [m for m in corpus if (not args.p or args.p in (m.get("props") or [m.get("prop")])) and (not args.k or args.k in m["id"])]
+    sel = [m for m in corpus if (not args.p or args.p in (m.get("props") or [m.get("prop")])) and (not args.k or any(k in m["id"] for k in args.k.split(",")))]
     bad = 0
     with ThreadPoolExecutor(args.j) as ex:
         for (mid, status, msg) in ex.map(lambda m: run_one(m, args.repo), sel):
